@@ -49,6 +49,9 @@ CLAIMS = {
     'C05': dict(
         text="Decides necessary structural conditions, for all models/configurations, for the representations of one distribution to be the same model: every fixed-point cumulative of the leaky quantizer (encoder view, decoder search, symbol_table iterator) evaluates cdf and slack at the same boundary index (affine rule); views/projections copy the same-named fields; `impl Trait for &M` forwards unchanged; generic conversions store table triples without arithmetic; the contiguous->lookup conversion copies the cdf and fills the table from the monotonic part cdf[1..len-1] only; the lazy and eager categorical constructors compute a structurally identical `scale` under the same validation, with the as_(prefix_sum*scale)+index formula in both. Not decided: numeric equality of genuinely different float paths; uniform-model views.",
         tech="affine boundary-consistency rule over the value graph (R10); same-field / delegation / no-arithmetic rules; structural (DAG) equality of sibling float computations"),
+    'C15': dict(
+        text="Decides the mutual-consistency clause structurally: both Huffman tree builders build the heap from the same keyed source enumerate().map(|(i,s)| Reverse((s,i))) (deterministic tie-break by symbol index), pop two and push Reverse((w0+w1, next)) with the node counter starting at the number of symbols and stepping by one, and give bit 0 to the child popped first; out-of-alphabet symbols are rejected before any bit is emitted and the default prefix/suffix adaptors buffer first; the entry index of both unchecked table walks is in bounds. Not decided: prefix-freeness, Kraft equality, optimality, that decode inverts encode for every codeword (statements about code lengths / bit patterns).",
+        tech="sibling agreement of the two builders' merge loops over role-normalised value-graph terms; ordering rule; difference-bound entry check"),
 }
 
 NA = {
@@ -56,7 +59,6 @@ NA = {
     'C06': "equality with an external reference bit stream: a symmetric change of encoder and decoder is invisible to any sibling rule, and comparing against a frozen copy of today's formulas would alarm on every behaviour-preserving rewrite",
     'C11': "interval arithmetic on lower/range values of the seal words; no structural fact implies it",
     'C12': "analytic inequality between bit counts and information content (value-level)",
-    'C15': "prefix-freeness, Kraft equality and optimality are statements about code lengths and bit patterns; the one structural clause planned for it (both tree builders run the same merge protocol) was not built, so nothing is claimed. Rejection of out-of-alphabet symbols before emission is decided under C09 and the entry bounds of the unchecked table walks under C20",
     'C16': "LIFO/FIFO identity, exact len(), re-import and Exp-Golomb round trips are statements about bit patterns inside words (their inspection guards are decided under C08)",
 }
 PENDING = "check not built yet in this round (see DESIGN.md §7 build order); will be claimed or declared not applicable with a reason"
